@@ -89,10 +89,14 @@ def _pieces(E, st, templ, mark=None):
     return out
 
 
+_LOCAL_OFF = ("(-timezone.time.altzone if (timezone.time.localtime().tm_isdst == 1"
+              " and timezone.time.daylight) else -timezone.time.timezone)")
+
+
 def text_case(dkind, style, sign, tkind, tstyle, mark, zone, cfg=None):
     """cfg: None (2 expanded digits, assumed zone +05:30) | 'x0' | 'only-basic' | 'unknown'"""
     pkw = {"x0": dict(x=0), "only-basic": dict(only_basic=True),
-           "unknown": dict(assumed=None)}.get(cfg, {})
+           "unknown": dict(assumed=None), "local": dict(assumed=None)}.get(cfg, {})
 
     def build(E, st):
         ps = []
@@ -140,7 +144,8 @@ def text_case(dkind, style, sign, tkind, tstyle, mark, zone, cfg=None):
     if zone in ("none", "Z") or tkind == "none":
         zok = "True"
         zens = (("result._time_zone._hours == 5 and result._time_zone._minutes == 30"
-                 if cfg != "unknown" else
+                 if cfg not in ("unknown", "local") else
+                 "tz_seconds(result._time_zone) == %s" % _LOCAL_OFF if cfg == "local" else
                  "result._time_zone._hours == 0 and result._time_zone._minutes == 0")
                 if zone == "none" or tkind == "none" else
                 "result._time_zone._hours == 0 and result._time_zone._minutes == 0")
@@ -157,6 +162,10 @@ def text_case(dkind, style, sign, tkind, tstyle, mark, zone, cfg=None):
            "result._num_expanded_year_digits == %d" % (2 if sign else 0)]
     raises = [("BadInputError", "not (%s and %s and %s)" % (dok, tok, zok))]
     c = Case(name, build, ensures=ens, raises=raises)
+    if cfg == "local":
+        # the system zone: a whole number of minutes within a day of UTC (symbolic)
+        c.requires = ["(%s) %% 60 == 0" % _LOCAL_OFF,
+                      "-86400 < %s and %s < 86400" % (_LOCAL_OFF, _LOCAL_OFF)]
     c.valid = "%s and %s and %s" % (dok, tok, zok)
     return c
 
@@ -223,6 +232,13 @@ for cfg in ("x0", "only-basic", "unknown"):
                     for tstyle in ("basic", "extended"):
                         for zn in ("none", "Z", "-hhmm", "+hh"):
                             TEXT_CASES.append(text_case(dk, style, sg, tk, tstyle, mark, zn, cfg))
+
+# the system's local zone (symbolic time module): a form without a zone gets it
+for dk in DATE_SEPS:
+    for style in ("basic", "extended"):
+        TEXT_CASES.append(text_case(dk, style, None, "none", style, None, "none", "local"))
+        TEXT_CASES.append(text_case(dk, style, None, "hms", style, None, "none", "local"))
+        TEXT_CASES.append(text_case(dk, style, "-", "hm", style, None, "none", "local"))
 
 contract("parsers:TimePointParser.parse", use_at_calls=False, opaque=["dby"],
          check_frames=False, cases=TEXT_CASES, merge=True,
